@@ -1,3 +1,7 @@
+//! C14 harness: the generic evaluation server plus one directive unit
+//!   #!globals <substr>   -> ok [names of global identifiers containing <substr>, sorted]
+//!   #!forge <substr> <template>  -> outcome of evaluating <template> with {} := first global containing <substr>
+//! (used to probe whether a program can spell a module-private, mangled, name).
 //! Generic evaluation server: one JSON case per input line
 //!   {"id": .., "units": ["src", ...], "fresh": bool}
 //! evaluates the units in order on one engine (a fresh one when "fresh" is true or after a panic,
@@ -47,7 +51,44 @@ fn main() {
         let mut res = Vec::new();
         let mut poisoned = false;
         for u in case["units"].as_array().unwrap() {
-            let o = eval_unit(eng, u.as_str().unwrap());
+            let us = u.as_str().unwrap();
+            if let Some(sub) = us.strip_prefix("#!globals ") {
+                let mut names: Vec<String> = eng
+                    .globals()
+                    .iter()
+                    .map(|x| x.resolve().to_string())
+                    .filter(|x| x.contains(sub))
+                    .collect();
+                names.sort();
+                res.push(json!({"ok": names}));
+                continue;
+            }
+            // #!forge <substr> <template>: evaluate <template> with {} replaced by the first global whose
+            // name contains <substr> (a module-private, mangled, name the program could not know otherwise)
+            let forged;
+            let us = if let Some(rest) = us.strip_prefix("#!forge ") {
+                let (sub, tpl) = rest.split_once(' ').unwrap_or((rest, "{}"));
+                let mut names: Vec<String> = eng
+                    .globals()
+                    .iter()
+                    .map(|x| x.resolve().to_string())
+                    .filter(|x| x.contains(sub))
+                    .collect();
+                names.sort();
+                match names.first() {
+                    Some(n) => {
+                        forged = tpl.replace("{}", n);
+                        forged.as_str()
+                    }
+                    None => {
+                        res.push(json!({"err": "NoSuchGlobal", "msg": sub}));
+                        continue;
+                    }
+                }
+            } else {
+                us
+            };
+            let o = eval_unit(eng, us);
             if let Outcome::Panic(_) = o {
                 poisoned = true;
             }
